@@ -58,6 +58,7 @@ def dispatch (line : String) : String :=
   | "hostcall" :: rest => handleHostCall rest
   | "heapcopy" :: rest => handleHeapCopy rest
   | "heapalias" :: rest => handleHeapAlias rest
+  | "heapsend" :: rest => handleHeapSend rest
   | "pm" :: rest => handlePatMatrix rest
   | "pc" :: rest => handlePatCompile rest
   | "sem" :: rest => handleSem rest
